@@ -61,9 +61,9 @@ def riscv_ri_arithmetic3(obj, imm, rs1, rd):
     obj.type = type_data_processing
 
 
-@ispec("32<[ 0100000 imm(5) rs1(5) 101 rd(5) 0010011 ]", mnemonic="SRAI")
-@ispec("32<[ 0000000 imm(5) rs1(5) 101 rd(5) 0010011 ]", mnemonic="SRLI")
-@ispec("32<[ 0000000 imm(5) rs1(5) 001 rd(5) 0010011 ]", mnemonic="SLLI")
+@ispec("32<[ 010000 imm(6) rs1(5) 101 rd(5) 0010011 ]", mnemonic="SRAI")
+@ispec("32<[ 000000 imm(6) rs1(5) 101 rd(5) 0010011 ]", mnemonic="SRLI")
+@ispec("32<[ 000000 imm(6) rs1(5) 001 rd(5) 0010011 ]", mnemonic="SLLI")
 @ispec("32<[ 0100000 imm(5) rs1(5) 101 rd(5) 0011011 ]", mnemonic="SRAI")
 @ispec("32<[ 0000000 imm(5) rs1(5) 101 rd(5) 0011011 ]", mnemonic="SRLI")
 @ispec("32<[ 0000000 imm(5) rs1(5) 001 rd(5) 0011011 ]", mnemonic="SLLI")
